@@ -157,6 +157,20 @@ def run(ctx):
                 break
         if len(samples) < 4 and lab in ("toomany_huge", "random", "long", "nonnum") and lab not in [x["kind"] for x in samples]:
             samples.append({"kind": lab, "input": s[:80].decode("latin-1"), "impl": i[:80]})
+    # ---- the documented limit on the number of ranges between one pair of brackets (10240): one less and exactly that many are
+    #      accepted with every host, one more is refused; implementation only (S states the outcome; the model is slow here)
+    MAXR = 10240
+    lim = []
+    for k in (MAXR - 1, MAXR, MAXR + 1):
+        lim.append((k, b"n[" + b",".join(b"%d" % (2 * i + 1) for i in range(k)) + b"]"))
+    lo = eng.run_impl(["parse " + hexs(e) for _, e in lim])
+    for (k, e), o in zip(lim, lo):
+        dist["ranges_limit"] = dist.get("ranges_limit", 0) + 1
+        okay = o.startswith("N=%d " % k) if k <= MAXR else o.startswith("ERR")
+        if not okay:
+            bad += 1
+            ctx.violation("input", case="parse " + hexs(e)[:2000], expected=("N=%d and every host" % k) if k <= MAXR else "ERR (more than the documented 10240 ranges in one bracket)",
+                          observed=o[:200], engine="hl", detail="a bracket with %d single ranges (documented limit %d): %s" % (k, MAXR, o[:80]))
     # ---- the same texts where pdsh takes a host expression: -w / -x words, with the prefixes a word may carry ----
     import realeng
     real = realeng.Real(ctx, san=False, tag="real15", null_exec=True)
